@@ -2014,6 +2014,10 @@ func wellKnownGlobal(st *State, x *ssa.Global) (Value, bool) {
 	switch x.String() {
 	case "encoding/base64.RawURLEncoding", "encoding/base64.StdEncoding", "encoding/base64.URLEncoding", "encoding/base64.RawStdEncoding":
 		return Opq{"base64 encoding"}, true
+	case "github.com/libp2p/go-libp2p-pubsub.GossipSubDlo":
+		return Sc{BVu(5, 64)}, true // library defaults (only used for connection-manager water marks)
+	case "github.com/libp2p/go-libp2p-pubsub.GossipSubDhi":
+		return Sc{BVu(12, 64)}, true
 	case "crypto/rand.Reader":
 		return Opq{"crypto/rand.Reader"}, true // only ever handed on to (stubbed) crypto functions
 	case "github.com/ethereum/go-ethereum/common.Big0":
